@@ -193,6 +193,9 @@ NOTES = {
     'C14-lanczos-skip-normalization': 'round 6, first run: MISSED (the orthonormality proof was lost, no failing input). r_C14 has start vectors of norm 1 + 6e-9',
     'C03-identity-inplace-scale': 'round 6, first run: MISSED (MPO.identity was called with float or complex dtype and fitting scales only). r_C03 uses every combination of scale kind and dtype (float with complex scale, int with fractional scale)',
     'C08-twosite-physical-qnumbers-from-H': 'round 6, first run: MISSED (operator and state always carried the same physical labels). New family randqz in r_C08 / r_C09 / r_C10: a charge-conserving operator with neutral bonds whose labels were zeroed, acting on a state that keeps its labels',
+    'C11-float-qinterm-buffer': 'round 6, first run: MISSED (charge labels were small). r_C11 / r_C12 shift the labels beyond 2^53 and up to 2^62 in every seventh case',
+    'C19-edge-add-empty-alias': 'round 6, first run: MISSED. r_C19 uses an edge without operators as accumulator for two other edges and compares the added edges afterwards (engine F cannot separate keeping the immutable entries of a list from keeping the list, so there is no frame obligation for OpGraphEdge.add)',
+    'C20-molecular-optimize-identity': 'round 6, first run: MISSED (the option was always the literal True). r_C20 passes True, 1 and np.True_',
     'C17-optree-node-children-alias': 'round 5, first run: MISSED. r_C17 builds two tree nodes from one list and extends one; engine F distinguishes keeping the *elements* of a list (allowed for nodes) from keeping the list itself',
     'C06-zero-coeff-filter-tolerance': 'first run: MISSED. r_C06 now includes parameter points scaled by 1e-9 ... 1e+12 (every parameter value is legal)',
 }
